@@ -292,6 +292,11 @@ class RaggedArray:
         metadata = dict(self.metadata)
         if dtype is None:
             dtype = self.dtype
+        if len(self) == 0:  # nothing for asraggedarray to infer the atom from
+            return create_raggedarray(path=path, atom=self.atom, dtype=dtype,
+                                      metadata=metadata,
+                                      accessmode=accessmode,
+                                      overwrite=overwrite)
         return asraggedarray(path=path, arrayiterable=arrayiterable,
                              dtype=dtype, metadata=metadata,
                              accessmode=accessmode, overwrite=overwrite)
